@@ -6,13 +6,23 @@ package barrier
 //
 // One case = one transactional in-memory physical store with two AESGCMBarrier instances on it (the
 // ACTIVE one writes, rotates and rekeys; the STANDBY one follows through the upgrade path), driven by
-// a rapid state machine. The reference model is written from the documentation of the
-// SecurityBarrier interface: a map of entries, the persisted root key and newest term, and per
-// instance {sealed, root key held, highest term held}.
+// a rapid state machine that can also make one storage write of an operation fail.
+//
+// The reference model is written from the documentation of the SecurityBarrier interface:
+//   - entries: key -> value, the term and the key bytes each acknowledged Put was encrypted with;
+//   - per instance: sealed, the root key it holds, the term keys it holds (term -> key bytes);
+//   - the DURABLE state, which is derived from what actually reached the store (never from return
+//     values): the harness opens core/keyring itself (crypto/aes + cipher, independent of the barrier)
+//     with the root keys it knows, and core/root-key with the term keys it knows.
+// An instance can read an entry iff it holds the key the entry was written with. An instance that has
+// just loaded the durable keyring (Unseal with the current root key, ReloadKeyring) must be able to read
+// EVERY acknowledged entry: that is the statement's claim.
 
 import (
 	"bytes"
 	"context"
+	"crypto/aes"
+	"crypto/cipher"
 	"encoding/binary"
 	"errors"
 	"fmt"
@@ -33,37 +43,117 @@ var c10NullLogger = hclog.NewNullLogger()
 var (
 	c10Keys     = []string{"d/a", "d/b", "d/c", "d/x/a", "d/x/b", "d/x/y/a", "d/z/a", "e/a"}
 	c10Prefixes = []string{"d/", "d/x/", "d/x/y/", "e/", "d/none/"}
+
+	c10PersistFaults = []string{"keyring", "root-key", "legacy-delete", "any"}
+	c10UpgradeFaults = []string{"upgrade", "any"}
+	c10DataFaults    = []string{"data", "any"}
 )
+
+var errC10Injected = errors.New("verif: injected storage fault")
+
+// ------------------------------------------------------------------ fault-injecting pass-through backend
+
+type c10Fault struct {
+	class    string // keyring | root-key | legacy-delete | upgrade | data | any
+	fired    bool
+	firedOp  string
+	firedKey string
+}
+
+// c10Faulty passes everything through to the in-memory backend, except that the first Put/Delete (outside
+// transactions) matching an armed fault fails without reaching the store.
+type c10Faulty struct {
+	physical.TransactionalBackend
+	fault *c10Fault
+}
+
+func (f *c10Faulty) hit(op, key string) bool {
+	ft := f.fault
+	if ft == nil || ft.fired {
+		return false
+	}
+	m := false
+	switch ft.class {
+	case "keyring":
+		m = op == "put" && key == KeyringPath
+	case "root-key":
+		m = op == "put" && key == RootKeyPath
+	case "legacy-delete":
+		m = op == "delete" && key == LegacyRootKeyPath
+	case "upgrade":
+		m = strings.HasPrefix(key, KeyringUpgradePrefix)
+	case "data":
+		m = strings.HasPrefix(key, "d/") || strings.HasPrefix(key, "e/")
+	case "any":
+		m = true
+	}
+	if m {
+		ft.fired, ft.firedOp, ft.firedKey = true, op, key
+	}
+	return m
+}
+
+func (f *c10Faulty) Put(ctx context.Context, e *physical.Entry) error {
+	if f.hit("put", e.Key) {
+		return errC10Injected
+	}
+	return f.TransactionalBackend.Put(ctx, e)
+}
+
+func (f *c10Faulty) Delete(ctx context.Context, key string) error {
+	if f.hit("delete", key) {
+		return errC10Injected
+	}
+	return f.TransactionalBackend.Delete(ctx, key)
+}
+
+// ------------------------------------------------------------------ model
 
 type c10Node struct {
 	name string
 	b    *TransactionalAESGCMBarrier
 	// model of the instance
 	sealed  bool
-	rootKey []byte // root key the instance holds
-	maxTerm uint32 // the instance holds the keys of terms 1..maxTerm
+	rootKey []byte            // root key the instance holds
+	keys    map[uint32][]byte // term keys the instance holds
+	maxTerm uint32            // its active term
 	// bookkeeping for the non-trivial rule: a seal/unseal, reload or upgrade happened after a rotation
 	event bool
 }
 
+type c10Upgrade struct {
+	key    []byte // key of term t+1 stored in core/upgrade/<t>
+	encKey []byte // key of term t the record is encrypted with
+}
+
 type c10H struct {
-	rt  *rapid.T
-	rec *verifx.Recorder
-	ctx context.Context
-	inm physical.Backend
-	act *c10Node
-	sby *c10Node
+	rt     *rapid.T
+	rec    *verifx.Recorder
+	ctx    context.Context
+	inm    physical.Backend // the store itself (harness reads; never faulted)
+	faulty *c10Faulty       // what the barriers see
+	act    *c10Node
+	sby    *c10Node
 
 	entries   map[string][]byte
 	entryTerm map[string]uint32
-	rootKey   []byte            // root key the persisted keyring is encrypted with
-	prevRoots [][]byte          // earlier root keys
-	term      uint32            // newest term
-	keys      map[uint32][]byte // term -> key bytes (captured from the active's Keyring() when the term was created)
-	upgrades  map[uint32]bool   // upgrades[t]: the record core/upgrade/<t> (key of term t+1 under term t) exists
+	entryKey  map[string][]byte
+	upgrades  map[uint32]*c10Upgrade
+
+	// durable state, derived from the store by syncDurable
+	rootKey   []byte   // the root key that opens the persisted keyring
+	prevRoots [][]byte // every other root key seen so far
+	durKeys   map[uint32][]byte
+	durTerm   uint32
+	rkPresent bool // core/root-key: present, and which term key opens it, and the root key inside
+	rkOpen    bool
+	rkTerm    uint32
+	rkKey     []byte
+	rkRoot    []byte
 
 	ops                                                          map[string]int64
 	fRot, fRootRot, fSealCycle, fUpgrade, fFailover, fNontrivial bool
+	faultsFired                                                  int
 	oldTermReads                                                 int
 }
 
@@ -71,6 +161,26 @@ func c10Copy(b []byte) []byte {
 	out := make([]byte, len(b))
 	copy(out, b)
 	return out
+}
+
+func c10CopyKeys(m map[uint32][]byte) map[uint32][]byte {
+	out := make(map[uint32][]byte, len(m))
+	for t, k := range m {
+		out[t] = k
+	}
+	return out
+}
+
+func c10SameKeys(a, b map[uint32][]byte) bool {
+	if len(a) != len(b) {
+		return false
+	}
+	for t, k := range a {
+		if o, ok := b[t]; !ok || !bytes.Equal(o, k) {
+			return false
+		}
+	}
+	return true
 }
 
 func c10Zero(b []byte) bool {
@@ -89,10 +199,11 @@ func (h *c10H) viol(sig string, detail map[string]any, format string, args ...an
 	detail["active"] = h.act.name
 	detail["active_sealed"] = h.act.sealed
 	detail["standby_sealed"] = h.sby.sealed
-	detail["newest_term"] = h.term
-	detail["active_terms"] = h.act.maxTerm
-	detail["standby_terms"] = h.sby.maxTerm
-	detail["root_key_rotations"] = len(h.prevRoots)
+	detail["durable_term"] = h.durTerm
+	detail["active_term"] = h.act.maxTerm
+	detail["standby_term"] = h.sby.maxTerm
+	detail["root_keys_seen"] = len(h.prevRoots) + 1
+	detail["storage_faults_fired"] = h.faultsFired
 	h.rec.Violation(h.rt, sig, detail, format, args...)
 }
 
@@ -103,22 +214,119 @@ func (h *c10H) try(op string, f func()) {
 	}
 }
 
-func (h *c10H) physHeader(key string) (uint32, byte, bool) {
+func (h *c10H) physGet(key string) []byte {
 	e, err := h.inm.Get(h.ctx, key)
 	if err != nil {
 		h.rt.Fatalf("harness: physical get: %v", err)
 	}
-	if e == nil || len(e.Value) < 5 {
+	if e == nil {
+		return nil
+	}
+	return c10Copy(e.Value)
+}
+
+func (h *c10H) physHeader(key string) (uint32, byte, bool) {
+	v := h.physGet(key)
+	if len(v) < 5 {
 		return 0, 0, false
 	}
-	return binary.BigEndian.Uint32(e.Value[:4]), e.Value[4], true
+	return binary.BigEndian.Uint32(v[:4]), v[4], true
 }
 
 func (h *c10H) checkNewRecord(op, key string, wantTerm uint32) {
 	term, ver, ok := h.physHeader(key)
 	if !ok || term != wantTerm || ver != AESGCMVersion2 {
 		h.viol("new-record-not-under-newest-term", map[string]any{"op": op, "key": key, "found": ok, "record_term": term, "record_version": ver, "want_term": wantTerm},
-			"%s wrote %q with header term %d version %d (present=%v), the newest term is %d", op, key, term, ver, ok, wantTerm)
+			"%s wrote %q with header term %d version %d (present=%v), the writer's newest term is %d", op, key, term, ver, ok, wantTerm)
+	}
+}
+
+// c10Open opens a barrier record with the standard library only.
+func c10Open(key []byte, path string, rec []byte) ([]byte, bool) {
+	if len(rec) < 5+28 {
+		return nil, false
+	}
+	blk, err := aes.NewCipher(key)
+	if err != nil {
+		return nil, false
+	}
+	g, err := cipher.NewGCMWithRandomNonce(blk)
+	if err != nil {
+		return nil, false
+	}
+	var aad []byte
+	switch rec[4] {
+	case AESGCMVersion1:
+	case AESGCMVersion2:
+		aad = []byte(path)
+	default:
+		return nil, false
+	}
+	pt, err := g.Open(nil, nil, rec[5:], aad)
+	return pt, err == nil
+}
+
+// syncDurable derives the durable keyring, the root key that opens it and the content of the root-key record
+// from the bytes in the store.
+func (h *c10H) syncDurable(candidates ...[]byte) {
+	rec := h.physGet(KeyringPath)
+	if rec == nil {
+		h.viol("persisted-keyring-missing", nil, "the store holds no %s", KeyringPath)
+		return
+	}
+	cands := append([][]byte{h.rootKey}, candidates...)
+	for i := len(h.prevRoots) - 1; i >= 0; i-- {
+		cands = append(cands, h.prevRoots[i])
+	}
+	var found, plain []byte
+	for _, c := range cands {
+		if pt, ok := c10Open(c, KeyringPath, rec); ok {
+			found, plain = c, pt
+			break
+		}
+	}
+	if found == nil {
+		h.viol("persisted-keyring-unopenable", nil, "no root key ever handed to the barrier opens the persisted keyring: nothing can unseal this store")
+		return
+	}
+	kr, err := DeserializeKeyring(plain)
+	if err != nil {
+		h.viol("persisted-keyring-unreadable", map[string]any{"err": err.Error()}, "the persisted keyring does not deserialize: %v", err)
+		return
+	}
+	if !bytes.Equal(found, h.rootKey) {
+		h.prevRoots = append(h.prevRoots, h.rootKey)
+		h.rootKey = c10Copy(found)
+		h.fRootRot = true
+	}
+	for _, c := range candidates {
+		if !bytes.Equal(c, h.rootKey) {
+			h.prevRoots = append(h.prevRoots, c10Copy(c))
+		}
+	}
+	h.durKeys = map[uint32][]byte{}
+	for t, k := range kr.keys {
+		h.durKeys[t] = c10Copy(k.Value)
+	}
+	h.durTerm = kr.ActiveTerm()
+
+	h.rkPresent, h.rkOpen, h.rkTerm, h.rkKey, h.rkRoot = false, false, 0, nil, nil
+	rk := h.physGet(RootKeyPath)
+	if len(rk) < 5 {
+		return
+	}
+	h.rkPresent = true
+	h.rkTerm = binary.BigEndian.Uint32(rk[:4])
+	for _, k := range [][]byte{h.durKeys[h.rkTerm], h.act.keys[h.rkTerm], h.sby.keys[h.rkTerm]} {
+		if k == nil {
+			continue
+		}
+		if pt, ok := c10Open(k, RootKeyPath, rk); ok {
+			if key, err := DeserializeKey(pt); err == nil {
+				h.rkOpen, h.rkKey, h.rkRoot = true, k, c10Copy(key.Value)
+			}
+			break
+		}
 	}
 }
 
@@ -165,6 +373,36 @@ func (h *c10H) sortedEntryKeys() []string {
 	return ks
 }
 
+// drawFault arms, with probability 1/4, a one-shot storage fault of one of the given classes.
+func (h *c10H) drawFault(classes []string) *c10Fault {
+	k := rapid.IntRange(0, 4*len(classes)-1).Draw(h.rt, "storageFault")
+	if k >= len(classes) {
+		h.faulty.fault = nil
+		return nil
+	}
+	f := &c10Fault{class: classes[k]}
+	h.faulty.fault = f
+	return f
+}
+
+// disarm removes the fault and reports whether it fired.
+func (h *c10H) disarm(op string, f *c10Fault) bool {
+	h.faulty.fault = nil
+	if f == nil || !f.fired {
+		return false
+	}
+	h.faultsFired++
+	label := f.firedKey
+	switch {
+	case strings.HasPrefix(label, KeyringUpgradePrefix):
+		label = KeyringUpgradePrefix + "*"
+	case strings.HasPrefix(label, "d/") || strings.HasPrefix(label, "e/"):
+		label = "data"
+	}
+	h.ops[fmt.Sprintf("fault-fired:%s:%s %s", op, f.firedOp, label)]++
+	return true
+}
+
 // ------------------------------------------------------------------ sealed instance: nothing is served, nothing is held
 
 type c10Res struct {
@@ -180,10 +418,7 @@ func (h *c10H) checkSealed(n *c10Node) {
 	if ks := h.sortedEntryKeys(); len(ks) > 0 {
 		probeKey = ks[0]
 	}
-	var physBefore []byte
-	if e, _ := h.inm.Get(ctx, probeKey); e != nil {
-		physBefore = c10Copy(e.Value)
-	}
+	physBefore := h.physGet(probeKey)
 	var res []c10Res
 	var sealedFlag bool
 	var krErr error
@@ -259,21 +494,18 @@ func (h *c10H) checkSealed(n *c10Node) {
 			"the sealed %s still holds key material (keyring nil: %v, cached AEADs: %d)", n.name, b.keyring == nil, len(b.cache))
 	}
 	// nothing reached the store
-	if e, _ := h.inm.Get(ctx, "d/sealed-probe"); e != nil {
+	if h.physGet("d/sealed-probe") != nil {
 		h.viol("sealed-write-reached-storage", map[string]any{"node": n.name}, "a Put on the sealed %s reached the physical store", n.name)
 	}
-	var physAfter []byte
-	if e, _ := h.inm.Get(ctx, probeKey); e != nil {
-		physAfter = e.Value
-	}
-	if !bytes.Equal(physBefore, physAfter) {
+	if !bytes.Equal(physBefore, h.physGet(probeKey)) {
 		h.viol("sealed-delete-reached-storage", map[string]any{"node": n.name, "key": probeKey}, "a Delete on the sealed %s changed the physical record of %q", n.name, probeKey)
 	}
 }
 
 // ------------------------------------------------------------------ unsealed instance: keyring as modelled, entries read back
 
-func (h *c10H) checkUnsealed(n *c10Node) {
+// checkUnsealed: fresh = the instance has just loaded the durable keyring with the current root key.
+func (h *c10H) checkUnsealed(n *c10Node, stage string, fresh bool) {
 	b := n.b
 	var sealedFlag bool
 	var kr *Keyring
@@ -307,15 +539,15 @@ func (h *c10H) checkUnsealed(n *c10Node) {
 	switch {
 	case kr.ActiveTerm() != n.maxTerm:
 		bad = fmt.Sprintf("active term %d, expected %d", kr.ActiveTerm(), n.maxTerm)
-	case len(kr.keys) != int(n.maxTerm):
-		bad = fmt.Sprintf("%d terms, expected %d", len(kr.keys), n.maxTerm)
+	case len(kr.keys) != len(n.keys):
+		bad = fmt.Sprintf("%d terms, expected %d", len(kr.keys), len(n.keys))
 	case !bytes.Equal(kr.RootKey(), n.rootKey):
 		bad = "root key differs from the one this instance must hold"
 	default:
-		for t := uint32(1); t <= n.maxTerm; t++ {
+		for t, want := range n.keys {
 			k := kr.TermKey(t)
-			if k == nil || !bytes.Equal(k.Value, h.keys[t]) {
-				bad = fmt.Sprintf("key of term %d missing or different from the key the active node created", t)
+			if k == nil || !bytes.Equal(k.Value, want) {
+				bad = fmt.Sprintf("key of term %d missing or different from the key this instance must hold", t)
 				break
 			}
 		}
@@ -325,22 +557,29 @@ func (h *c10H) checkUnsealed(n *c10Node) {
 		if n == h.sby {
 			sig = "standby-keyring-differs"
 		}
-		h.viol(sig, map[string]any{"node": n.name, "what": bad}, "keyring of %s: %s", n.name, bad)
+		h.viol(sig, map[string]any{"node": n.name, "what": bad, "stage": stage}, "keyring of %s (%s): %s", n.name, stage, bad)
 	}
 	if vrErr != nil {
 		h.viol("verify-root-rejects-current", map[string]any{"node": n.name, "err": fmt.Sprint(vrErr)}, "VerifyRoot(root key held by %s) = %v", n.name, vrErr)
 	}
 	if prev != nil && !errors.Is(vrPrevErr, ErrBarrierInvalidKey) {
-		h.viol("verify-root-accepts-other", map[string]any{"node": n.name, "err": fmt.Sprint(vrPrevErr)}, "VerifyRoot(an earlier root key) on %s = %v, want ErrBarrierInvalidKey", n.name, vrPrevErr)
+		h.viol("verify-root-accepts-other", map[string]any{"node": n.name, "err": fmt.Sprint(vrPrevErr)}, "VerifyRoot(another root key) on %s = %v, want ErrBarrierInvalidKey", n.name, vrPrevErr)
 	}
 	if infoErr != nil || info == nil || info.Term != int(n.maxTerm) {
 		h.viol("active-key-info", map[string]any{"node": n.name, "err": fmt.Sprint(infoErr)}, "ActiveKeyInfo of %s = %+v, %v; expected term %d", n.name, info, infoErr, n.maxTerm)
 	}
-	h.readBack(n, "invariant")
+	h.readBack(n, stage, fresh)
 }
 
-// readBack reads every model entry through n: exact value when n holds the entry's term, an error otherwise.
-func (h *c10H) readBack(n *c10Node, stage string) {
+func (h *c10H) canRead(n *c10Node, key string) bool {
+	k, ok := n.keys[h.entryTerm[key]]
+	return ok && bytes.Equal(k, h.entryKey[key])
+}
+
+// readBack reads every acknowledged entry through n. It must return the exact value when n holds the key the
+// entry was written with. When it does not: an instance that has just loaded the durable keyring (fresh) must
+// hold it - the entry was acknowledged - so a failure is the violation; a lagging instance must return an error.
+func (h *c10H) readBack(n *c10Node, stage string, fresh bool) {
 	for _, k := range h.sortedEntryKeys() {
 		want := h.entries[k]
 		et := h.entryTerm[k]
@@ -348,7 +587,8 @@ func (h *c10H) readBack(n *c10Node, stage string) {
 		var err error
 		h.try("Get", func() { e, err = n.b.Get(h.ctx, k) })
 		d := func() map[string]any {
-			m := map[string]any{"node": n.name, "stage": stage, "key": k, "entry_term": et, "want": fmt.Sprintf("%x", want), "err": fmt.Sprint(err)}
+			m := map[string]any{"node": n.name, "stage": stage, "key": k, "entry_term": et, "want": fmt.Sprintf("%x", want), "err": fmt.Sprint(err),
+				"instance_holds_entry_key": h.canRead(n, k), "entry_term_in_durable_keyring": h.durKeys[et] != nil && bytes.Equal(h.durKeys[et], h.entryKey[k])}
 			if e != nil {
 				m["got"] = fmt.Sprintf("%x", e.Value)
 			}
@@ -357,10 +597,15 @@ func (h *c10H) readBack(n *c10Node, stage string) {
 		if pt, pv, ok := h.physHeader(k); !ok || pt != et || pv != AESGCMVersion2 {
 			h.viol("stored-record-header-changed", d(), "physical record of %q has header term %d version %d (present=%v), it was written under term %d", k, pt, pv, ok, et)
 		}
-		if et > n.maxTerm {
-			// only possible on an instance that lags behind (standby): it cannot decrypt and must say so
-			if err == nil {
-				h.viol("read-without-key", d(), "%s does not hold term %d but Get(%q) returned err=nil", n.name, et, k)
+		if !h.canRead(n, k) {
+			switch {
+			case err == nil && e != nil && bytes.Equal(e.Value, want):
+				// served correctly although the model does not know how: not a violation of the statement
+			case err == nil:
+				h.viol("read-without-key", d(), "%s does not hold the key of term %d but Get(%q) returned err=nil without the written value", n.name, et, k)
+			case fresh:
+				h.viol("acknowledged-entry-unreadable", d(),
+					"%s just loaded the persisted keyring with the current root key (%s), but Get(%q) fails: %v - the Put of this entry under term %d was acknowledged and the key of that term is not in the persisted keyring", n.name, stage, k, err, et)
 			}
 			continue
 		}
@@ -372,7 +617,7 @@ func (h *c10H) readBack(n *c10Node, stage string) {
 		case !bytes.Equal(e.Value, want):
 			h.viol("entry-changed", d(), "%s (%s): Get(%q) = %x, written %x", n.name, stage, k, e.Value, want)
 		default:
-			if et < h.term {
+			if et < n.maxTerm {
 				h.oldTermReads++
 				if n.event {
 					h.fNontrivial = true
@@ -387,7 +632,7 @@ func (h *c10H) invariant() {
 		if n.sealed {
 			h.checkSealed(n)
 		} else {
-			h.checkUnsealed(n)
+			h.checkUnsealed(n, "invariant", false)
 		}
 	}
 }
@@ -421,40 +666,62 @@ func (h *c10H) opPut() {
 	key := rapid.SampledFrom(c10Keys).Draw(h.rt, "key")
 	val := h.drawValue("val")
 	n := h.act
+	before := h.physGet(key)
+	ft := h.drawFault(c10DataFaults)
 	var err error
 	h.try("Put", func() { err = n.b.Put(h.ctx, &logical.StorageEntry{Key: key, Value: c10Copy(val)}) })
+	fired := h.disarm("Put", ft)
 	if n.sealed {
 		if !errors.Is(err, ErrBarrierSealed) {
 			h.viol("sealed-op-served:Put", map[string]any{"key": key, "err": fmt.Sprint(err)}, "Put on the sealed active returned %v", err)
 		}
 		return
 	}
+	if fired {
+		if err == nil {
+			h.viol("put-acknowledged-but-not-stored", map[string]any{"key": key}, "the storage write of Put(%q) failed but Put returned nil", key)
+		}
+		if !bytes.Equal(before, h.physGet(key)) {
+			h.rt.Fatalf("harness: a faulted Put changed the store")
+		}
+		return // not acknowledged: the model keeps the previous value
+	}
 	if err != nil {
-		h.viol("put-fails", map[string]any{"key": key, "err": fmt.Sprint(err)}, "Put(%q) on the unsealed active failed: %v", key, err)
+		h.viol("put-fails", map[string]any{"key": key, "err": fmt.Sprint(err)}, "Put(%q) on the unsealed active failed without a storage fault: %v", key, err)
 		return
 	}
 	h.entries[key] = val
-	h.entryTerm[key] = h.term
-	h.checkNewRecord("Put", key, h.term)
+	h.entryTerm[key] = n.maxTerm
+	h.entryKey[key] = n.keys[n.maxTerm]
+	h.checkNewRecord("Put", key, n.maxTerm)
 }
 
 func (h *c10H) opDelete() {
 	key := rapid.SampledFrom(c10Keys).Draw(h.rt, "key")
 	n := h.act
+	ft := h.drawFault(c10DataFaults)
 	var err error
 	h.try("Delete", func() { err = n.b.Delete(h.ctx, key) })
+	fired := h.disarm("Delete", ft)
 	if n.sealed {
 		if !errors.Is(err, ErrBarrierSealed) {
 			h.viol("sealed-op-served:Delete", map[string]any{"key": key, "err": fmt.Sprint(err)}, "Delete on the sealed active returned %v", err)
 		}
 		return
 	}
+	if fired {
+		if err == nil {
+			h.viol("delete-acknowledged-but-not-done", map[string]any{"key": key}, "the storage delete of Delete(%q) failed but Delete returned nil", key)
+		}
+		return
+	}
 	if err != nil {
-		h.viol("delete-fails", map[string]any{"key": key, "err": fmt.Sprint(err)}, "Delete(%q) failed: %v", key, err)
+		h.viol("delete-fails", map[string]any{"key": key, "err": fmt.Sprint(err)}, "Delete(%q) failed without a storage fault: %v", key, err)
 		return
 	}
 	delete(h.entries, key)
 	delete(h.entryTerm, key)
+	delete(h.entryKey, key)
 	if _, _, ok := h.physHeader(key); ok {
 		h.viol("delete-not-effective", map[string]any{"key": key}, "Delete(%q) succeeded but the physical record is still there", key)
 	}
@@ -490,9 +757,9 @@ func (h *c10H) opGet(n *c10Node, viaTxn bool) {
 		if err != nil || e != nil {
 			h.viol("get-absent-key", d, "Get(%q) of a key that holds nothing returned (%v, %v)", key, e != nil, err)
 		}
-	case h.entryTerm[key] > n.maxTerm:
-		if err == nil {
-			h.viol("read-without-key", d, "%s does not hold term %d but Get(%q) returned err=nil", n.name, h.entryTerm[key], key)
+	case !h.canRead(n, key):
+		if err == nil && (e == nil || !bytes.Equal(e.Value, want)) {
+			h.viol("read-without-key", d, "%s does not hold the key of term %d but Get(%q) returned err=nil without the written value", n.name, h.entryTerm[key], key)
 		}
 	case err != nil || e == nil:
 		h.viol("entry-unreadable", d, "%s: Get(%q) of an entry written under term %d returned (%v, %v)", n.name, key, h.entryTerm[key], e != nil, err)
@@ -524,7 +791,7 @@ func (h *c10H) opList(n *c10Node) {
 }
 
 // opTxn runs a transaction on the active: puts, deletes, reads, lists, optionally a rotation or a seal in the
-// middle, then Commit or Rollback.
+// middle, then Commit or Rollback. Storage faults are not injected inside transactions.
 func (h *c10H) opTxn() {
 	n := h.act
 	nops := rapid.IntRange(1, 4).Draw(h.rt, "txnOps")
@@ -547,9 +814,11 @@ func (h *c10H) opTxn() {
 	}()
 	pend := map[string][]byte{}
 	pendTerm := map[string]uint32{}
+	pendKey := map[string][]byte{}
 	for k, v := range h.entries {
 		pend[k] = v
 		pendTerm[k] = h.entryTerm[k]
+		pendKey[k] = h.entryKey[k]
 	}
 	wrote := map[string]bool{}
 	sealedInside := false
@@ -570,7 +839,7 @@ func (h *c10H) opTxn() {
 				h.viol("put-fails", map[string]any{"key": key, "txn": true, "err": fmt.Sprint(err)}, "Put(%q) in a transaction failed: %v", key, err)
 				continue
 			}
-			pend[key], pendTerm[key], wrote[key] = val, h.term, true
+			pend[key], pendTerm[key], pendKey[key], wrote[key] = val, n.maxTerm, n.keys[n.maxTerm], true
 		case "delete":
 			h.try("tx.Delete", func() { err = tx.Delete(h.ctx, key) })
 			if n.sealed {
@@ -585,6 +854,7 @@ func (h *c10H) opTxn() {
 			}
 			delete(pend, key)
 			delete(pendTerm, key)
+			delete(pendKey, key)
 			delete(wrote, key)
 		case "get":
 			var e *logical.StorageEntry
@@ -638,7 +908,7 @@ func (h *c10H) opTxn() {
 		h.viol("commit-fails", map[string]any{"err": fmt.Sprint(err)}, "Commit of a transaction without concurrent writers failed: %v", err)
 		return
 	}
-	h.entries, h.entryTerm = pend, pendTerm
+	h.entries, h.entryTerm, h.entryKey = pend, pendTerm, pendKey
 	wk := make([]string, 0, len(wrote))
 	for k := range wrote {
 		wk = append(wk, k)
@@ -668,83 +938,124 @@ func (h *c10H) opCrypt() {
 		}
 		return
 	}
-	if err != nil || len(ct) < 5 || binary.BigEndian.Uint32(ct[:4]) != h.term {
-		h.viol("encrypt-not-under-newest-term", map[string]any{"err": fmt.Sprint(err), "ciphertext": fmt.Sprintf("%x", ct)}, "Encrypt returned %x, %v; the newest term is %d", ct, err, h.term)
+	if err != nil || len(ct) < 5 || binary.BigEndian.Uint32(ct[:4]) != a.maxTerm {
+		h.viol("encrypt-not-under-newest-term", map[string]any{"err": fmt.Sprint(err), "ciphertext": fmt.Sprintf("%x", ct)}, "Encrypt returned %x, %v; the newest term is %d", ct, err, a.maxTerm)
 		return
 	}
 	if derr != nil || !bytes.Equal(back, pt) {
 		h.viol("decrypt-roundtrip", map[string]any{"err": fmt.Sprint(derr)}, "Decrypt(Encrypt(x)) on the active = %x, %v; x = %x", back, derr, pt)
 	}
+	sk, sHas := s.keys[a.maxTerm]
 	switch {
 	case s.sealed:
 		if !errors.Is(serr, ErrBarrierSealed) || backS != nil {
 			h.viol("sealed-op-served:Decrypt", map[string]any{"err": fmt.Sprint(serr)}, "Decrypt on the sealed standby returned (%v, %v)", backS != nil, serr)
 		}
-	case s.maxTerm >= h.term:
+	case sHas && bytes.Equal(sk, a.keys[a.maxTerm]):
 		if serr != nil || !bytes.Equal(backS, pt) {
-			h.viol("standby-decrypt", map[string]any{"err": fmt.Sprint(serr)}, "the standby holds term %d but Decrypt returned %x, %v", h.term, backS, serr)
+			h.viol("standby-decrypt", map[string]any{"err": fmt.Sprint(serr)}, "the standby holds the key of term %d but Decrypt returned %x, %v", a.maxTerm, backS, serr)
 		}
 	default:
 		if serr == nil {
-			h.viol("read-without-key", map[string]any{}, "the standby does not hold term %d but Decrypt succeeded", h.term)
+			h.viol("read-without-key", map[string]any{}, "the standby does not hold the key of term %d but Decrypt succeeded", a.maxTerm)
 		}
 	}
 }
 
 func (h *c10H) rotate(withUpgrade bool) {
 	n := h.act
+	ft := h.drawFault(c10PersistFaults)
 	var nt uint32
 	var err error
 	h.try("Rotate", func() { nt, err = n.b.Rotate(h.ctx) })
+	fired := h.disarm("Rotate", ft)
 	if n.sealed {
 		if !errors.Is(err, ErrBarrierSealed) {
 			h.viol("sealed-op-served:Rotate", map[string]any{"err": fmt.Sprint(err)}, "Rotate on the sealed active returned %v", err)
 		}
 		return
 	}
-	if err != nil || nt != h.term+1 {
-		h.viol("rotate-fails", map[string]any{"err": fmt.Sprint(err), "returned_term": nt}, "Rotate returned (%d, %v), expected term %d", nt, err, h.term+1)
-		return
-	}
-	h.term++
-	n.maxTerm = h.term
-	h.fRot = true
 	var kr *Keyring
-	h.try("Keyring", func() { kr, err = n.b.Keyring() })
-	if err != nil || kr == nil || kr.TermKey(h.term) == nil {
-		h.viol("rotate-key-missing", map[string]any{"err": fmt.Sprint(err)}, "after Rotate the active's keyring has no key for term %d (%v)", h.term, err)
+	var kerr error
+	h.try("Keyring", func() { kr, kerr = n.b.Keyring() })
+	if kerr != nil || kr == nil {
+		h.viol("keyring-unavailable", map[string]any{"err": fmt.Sprint(kerr)}, "Keyring() after Rotate failed: %v", kerr)
 		return
 	}
-	h.keys[h.term] = c10Copy(kr.TermKey(h.term).Value)
-	for t := uint32(1); t < h.term; t++ {
-		if bytes.Equal(h.keys[t], h.keys[h.term]) {
-			h.viol("rotate-reuses-key", map[string]any{"term": t}, "the key of the new term %d equals the key of term %d", h.term, t)
+	if err != nil {
+		if !fired {
+			h.viol("rotate-fails", map[string]any{"err": fmt.Sprint(err)}, "Rotate failed without a storage fault: %v", err)
+			return
+		}
+		// Not acknowledged. What is durable is read from the store; what the instance holds is observed: it may have
+		// kept its keyring or (tolerated here, judged by the read-back checks later) already switched to the new term.
+		switch at := kr.ActiveTerm(); {
+		case at == n.maxTerm:
+		case at == n.maxTerm+1 && kr.TermKey(at) != nil:
+			n.keys[at] = c10Copy(kr.TermKey(at).Value)
+			n.maxTerm = at
+			h.ops["note:failed-rotate-left-new-term-in-memory"]++
+		default:
+			h.viol("failed-rotate-corrupts-keyring", map[string]any{"active_term_now": at}, "after a failed Rotate the active's keyring has active term %d (was %d)", at, n.maxTerm)
+		}
+		h.syncDurable()
+		return
+	}
+	if nt != n.maxTerm+1 || kr.ActiveTerm() != nt || kr.TermKey(nt) == nil {
+		h.viol("rotate-result", map[string]any{"returned_term": nt, "keyring_active_term": kr.ActiveTerm()}, "Rotate returned term %d (keyring active term %d), expected %d", nt, kr.ActiveTerm(), n.maxTerm+1)
+		return
+	}
+	nk := c10Copy(kr.TermKey(nt).Value)
+	for t, k := range n.keys {
+		if bytes.Equal(k, nk) {
+			h.viol("rotate-reuses-key", map[string]any{"term": t}, "the key of the new term %d equals the key of term %d", nt, t)
 		}
 	}
-	if pt, _, ok := h.physHeader(RootKeyPath); !ok || pt != h.term {
-		h.viol("root-key-record-not-under-newest-term", map[string]any{"record_term": pt, "present": ok}, "after Rotate the %s record is under term %d, newest is %d", RootKeyPath, pt, h.term)
+	n.keys[nt] = nk
+	n.maxTerm = nt
+	h.fRot = true
+	h.syncDurable()
+	// acknowledged => durable: the persisted keyring is the one in use, the root-key record is under the new term
+	if h.durTerm != nt || !c10SameKeys(h.durKeys, n.keys) || !bytes.Equal(h.rootKey, n.rootKey) {
+		h.viol("rotate-acknowledged-but-not-durable", map[string]any{"returned_term": nt, "persisted_terms": len(h.durKeys), "storage_fault": fired},
+			"Rotate returned term %d but the persisted keyring has active term %d with %d terms (in memory: %d)", nt, h.durTerm, len(h.durKeys), len(n.keys))
+	}
+	if !fired && (!h.rkOpen || h.rkTerm != nt || !bytes.Equal(h.rkRoot, n.rootKey)) {
+		h.viol("root-key-record-not-under-newest-term", map[string]any{"record_term": h.rkTerm, "present": h.rkPresent, "opens": h.rkOpen}, "after Rotate the %s record is under term %d (opens: %v), newest is %d", RootKeyPath, h.rkTerm, h.rkOpen, nt)
 	}
 	if withUpgrade {
-		h.createUpgrade(h.term)
+		h.createUpgrade(nt)
 	}
 }
 
 func (h *c10H) createUpgrade(term uint32) {
 	n := h.act
+	path := fmt.Sprintf("%s%d", KeyringUpgradePrefix, term-1)
+	before := h.physGet(path)
+	ft := h.drawFault(c10UpgradeFaults)
 	var err error
 	h.try("CreateUpgrade", func() { err = n.b.CreateUpgrade(h.ctx, term) })
+	fired := h.disarm("CreateUpgrade", ft)
 	if n.sealed {
 		if !errors.Is(err, ErrBarrierSealed) {
 			h.viol("sealed-op-served:CreateUpgrade", map[string]any{"err": fmt.Sprint(err)}, "CreateUpgrade on the sealed active returned %v", err)
 		}
 		return
 	}
-	if err != nil {
-		h.viol("create-upgrade-fails", map[string]any{"term": term, "err": fmt.Sprint(err)}, "CreateUpgrade(%d) failed: %v", term, err)
+	if fired {
+		if err == nil {
+			h.viol("create-upgrade-acknowledged-but-not-stored", map[string]any{"term": term}, "the storage write of CreateUpgrade(%d) failed but it returned nil", term)
+		}
+		if !bytes.Equal(before, h.physGet(path)) {
+			h.rt.Fatalf("harness: a faulted CreateUpgrade changed the store")
+		}
 		return
 	}
-	h.upgrades[term-1] = true
-	path := fmt.Sprintf("%s%d", KeyringUpgradePrefix, term-1)
+	if err != nil {
+		h.viol("create-upgrade-fails", map[string]any{"term": term, "err": fmt.Sprint(err)}, "CreateUpgrade(%d) failed without a storage fault: %v", term, err)
+		return
+	}
+	h.upgrades[term-1] = &c10Upgrade{key: n.keys[term], encKey: n.keys[term-1]}
 	if pt, _, ok := h.physHeader(path); !ok || pt != term-1 {
 		h.viol("upgrade-record-term", map[string]any{"term": term, "record_term": pt, "present": ok}, "CreateUpgrade(%d) left %q under term %d (present=%v), standbys at term %d cannot read anything else", term, path, pt, ok, term-1)
 	}
@@ -752,16 +1063,24 @@ func (h *c10H) createUpgrade(term uint32) {
 
 func (h *c10H) destroyUpgrade(term uint32) {
 	n := h.act
+	ft := h.drawFault(c10UpgradeFaults)
 	var err error
 	h.try("DestroyUpgrade", func() { err = n.b.DestroyUpgrade(h.ctx, term) })
+	fired := h.disarm("DestroyUpgrade", ft)
 	if n.sealed {
 		if !errors.Is(err, ErrBarrierSealed) {
 			h.viol("sealed-op-served:DestroyUpgrade", map[string]any{"err": fmt.Sprint(err)}, "DestroyUpgrade on the sealed active returned %v", err)
 		}
 		return
 	}
+	if fired {
+		if err == nil {
+			h.viol("destroy-upgrade-acknowledged-but-not-done", map[string]any{"term": term}, "the storage delete of DestroyUpgrade(%d) failed but it returned nil", term)
+		}
+		return
+	}
 	if err != nil {
-		h.viol("destroy-upgrade-fails", map[string]any{"term": term, "err": fmt.Sprint(err)}, "DestroyUpgrade(%d) failed: %v", term, err)
+		h.viol("destroy-upgrade-fails", map[string]any{"term": term, "err": fmt.Sprint(err)}, "DestroyUpgrade(%d) failed without a storage fault: %v", term, err)
 		return
 	}
 	delete(h.upgrades, term-1)
@@ -778,8 +1097,13 @@ func (h *c10H) rotateRoot() {
 	} else {
 		newKey = h.drawRootKey("newRootKey")
 	}
+	var ft *c10Fault
+	if valid {
+		ft = h.drawFault(c10PersistFaults)
+	}
 	var err error
 	h.try("RotateRootKey", func() { err = n.b.RotateRootKey(h.ctx, c10Copy(newKey)) })
+	fired := h.disarm("RotateRootKey", ft)
 	if n.sealed {
 		if !errors.Is(err, ErrBarrierSealed) {
 			h.viol("sealed-op-served:RotateRootKey", map[string]any{"err": fmt.Sprint(err)}, "RotateRootKey on the sealed active returned %v", err)
@@ -793,15 +1117,53 @@ func (h *c10H) rotateRoot() {
 		return // nothing may have changed: the invariant checks the keyring, the next unseal checks the store
 	}
 	if err != nil {
-		h.viol("rotate-root-fails", map[string]any{"err": fmt.Sprint(err), "size": len(newKey)}, "RotateRootKey with a %d-byte key failed: %v", len(newKey), err)
+		if !fired {
+			h.viol("rotate-root-fails", map[string]any{"err": fmt.Sprint(err), "size": len(newKey)}, "RotateRootKey with a %d-byte key failed without a storage fault: %v", len(newKey), err)
+			return
+		}
+		// not acknowledged: observe which root key the instance holds now, read the durable state from the store
+		var kr *Keyring
+		var kerr error
+		h.try("Keyring", func() { kr, kerr = n.b.Keyring() })
+		switch {
+		case kerr != nil || kr == nil:
+			h.viol("keyring-unavailable", map[string]any{"err": fmt.Sprint(kerr)}, "Keyring() after a failed RotateRootKey: %v", kerr)
+		case bytes.Equal(kr.RootKey(), n.rootKey):
+		case bytes.Equal(kr.RootKey(), newKey):
+			n.rootKey = c10Copy(newKey)
+			h.ops["note:failed-rotate-root-left-new-key-in-memory"]++
+		default:
+			h.viol("failed-rotate-root-corrupts-keyring", nil, "after a failed RotateRootKey the active holds neither the old nor the new root key")
+		}
+		h.syncDurable(newKey)
 		return
 	}
-	h.prevRoots = append(h.prevRoots, h.rootKey)
-	h.rootKey = c10Copy(newKey)
-	n.rootKey = h.rootKey
-	h.fRootRot = true
-	if pt, _, ok := h.physHeader(RootKeyPath); !ok || pt != h.term {
-		h.viol("root-key-record-not-under-newest-term", map[string]any{"record_term": pt, "present": ok}, "after RotateRootKey the %s record is under term %d, newest is %d", RootKeyPath, pt, h.term)
+	n.rootKey = c10Copy(newKey)
+	h.syncDurable(newKey)
+	if !bytes.Equal(h.rootKey, newKey) || !c10SameKeys(h.durKeys, n.keys) {
+		h.viol("rotate-root-acknowledged-but-not-durable", map[string]any{"storage_fault": fired}, "RotateRootKey returned nil but the persisted keyring does not open with the new root key (or lost terms)")
+	}
+	if !fired && (!h.rkOpen || h.rkTerm != n.maxTerm || !bytes.Equal(h.rkRoot, newKey)) {
+		h.viol("root-key-record-not-under-newest-term", map[string]any{"record_term": h.rkTerm, "present": h.rkPresent, "opens": h.rkOpen}, "after RotateRootKey the %s record is under term %d (opens: %v, holds the new key: %v), newest is %d", RootKeyPath, h.rkTerm, h.rkOpen, bytes.Equal(h.rkRoot, newKey), n.maxTerm)
+	}
+}
+
+func (h *c10H) autoRotateCheck() {
+	n := h.act
+	ft := h.drawFault(c10PersistFaults)
+	var reason string
+	var err error
+	h.try("CheckBarrierAutoRotate", func() { reason, err = n.b.CheckBarrierAutoRotate(h.ctx) })
+	fired := h.disarm("CheckBarrierAutoRotate", ft)
+	if fired {
+		if err == nil {
+			h.viol("autorotate-check-swallows-storage-error", nil, "a storage write of CheckBarrierAutoRotate failed but it returned nil")
+		}
+	} else if err != nil || reason != "" {
+		h.viol("autorotate-check", map[string]any{"err": fmt.Sprint(err), "reason": reason}, "CheckBarrierAutoRotate returned (%q, %v) with the default rotation config", reason, err)
+	}
+	if !n.sealed {
+		h.syncDurable() // it may have re-persisted the keyring the instance holds
 	}
 }
 
@@ -814,7 +1176,7 @@ func (h *c10H) seal(n *c10Node) {
 		return
 	}
 	wasUnsealed := !n.sealed
-	n.sealed, n.rootKey, n.maxTerm = true, nil, 0
+	n.sealed, n.rootKey, n.maxTerm, n.keys = true, nil, 0, map[uint32][]byte{}
 	if wasUnsealed && held != nil {
 		left := !c10Zero(held.rootKey)
 		for _, k := range held.keys {
@@ -827,6 +1189,10 @@ func (h *c10H) seal(n *c10Node) {
 		}
 	}
 	h.checkSealed(n)
+}
+
+func (h *c10H) loadDurable(n *c10Node) {
+	n.rootKey, n.keys, n.maxTerm = h.rootKey, c10CopyKeys(h.durKeys), h.durTerm
 }
 
 // unseal tries one key on n; the expected outcome is computed from the key bytes alone.
@@ -845,13 +1211,14 @@ func (h *c10H) unseal(n *c10Node, kind string, key []byte) {
 	switch {
 	case right:
 		if err != nil {
-			h.viol("unseal-with-current-root-key-fails", d, "Unseal of %s with the current root key failed: %v", n.name, err)
+			h.viol("unseal-with-current-root-key-fails", d, "Unseal of %s with the root key that opens the persisted keyring failed: %v", n.name, err)
 			return
 		}
-		n.sealed, n.rootKey, n.maxTerm = false, h.rootKey, h.term
-		n.event = h.term > 1
+		n.sealed = false
+		h.loadDurable(n)
+		n.event = n.maxTerm > 1
 		h.fSealCycle = true
-		h.checkUnsealed(n) // every entry reads back exactly, keyring complete
+		h.checkUnsealed(n, "after-unseal", true) // every acknowledged entry reads back exactly, keyring complete
 	case err == nil:
 		h.viol("unseal-accepts-wrong-key:"+kind, d, "Unseal of %s succeeded with a %s key of %d bytes that is not the current root key", n.name, kind, len(key))
 	default:
@@ -929,17 +1296,18 @@ func (h *c10H) reloadKeyring(n *c10Node) bool {
 	d := map[string]any{"node": n.name, "err": fmt.Sprint(err)}
 	if bytes.Equal(n.rootKey, h.rootKey) {
 		if err != nil {
-			h.viol("reload-keyring-fails", d, "ReloadKeyring on %s, which holds the current root key, failed: %v", n.name, err)
+			h.viol("reload-keyring-fails", d, "ReloadKeyring on %s, which holds the root key that opens the persisted keyring, failed: %v", n.name, err)
 			return false
 		}
-		if n.maxTerm < h.term || h.term > 1 {
+		h.loadDurable(n)
+		if n.maxTerm > 1 {
 			n.event = true
 		}
-		n.maxTerm = h.term
+		h.checkUnsealed(n, "after-reload-keyring", true)
 		return true
 	}
 	if !errors.Is(err, ErrBarrierInvalidKey) {
-		h.viol("reload-keyring-with-stale-root-key", d, "ReloadKeyring on %s, which holds an outdated root key, returned %v, want ErrBarrierInvalidKey", n.name, err)
+		h.viol("reload-keyring-with-stale-root-key", d, "ReloadKeyring on %s, which holds another root key than the persisted keyring's, returned %v, want ErrBarrierInvalidKey", n.name, err)
 	}
 	return false
 }
@@ -947,24 +1315,26 @@ func (h *c10H) reloadKeyring(n *c10Node) bool {
 func (h *c10H) reloadRootKey(n *c10Node) bool {
 	var err error
 	h.try("ReloadRootKey", func() { err = n.b.ReloadRootKey(h.ctx) })
-	d := map[string]any{"node": n.name, "err": fmt.Sprint(err)}
+	d := map[string]any{"node": n.name, "err": fmt.Sprint(err), "record_term": h.rkTerm, "record_opens_with_known_key": h.rkOpen}
 	if n.sealed {
 		if !errors.Is(err, ErrBarrierSealed) {
 			h.viol("sealed-op-served:ReloadRootKey", d, "ReloadRootKey on the sealed %s returned %v", n.name, err)
 		}
 		return false
 	}
-	// the root-key record is always written under the newest term
-	if n.maxTerm >= h.term {
+	if !h.rkPresent {
+		return err == nil
+	}
+	if k, ok := n.keys[h.rkTerm]; ok && h.rkOpen && bytes.Equal(k, h.rkKey) {
 		if err != nil {
-			h.viol("reload-root-key-fails", d, "ReloadRootKey on %s, which holds the newest term, failed: %v", n.name, err)
+			h.viol("reload-root-key-fails", d, "ReloadRootKey on %s, which holds the key of term %d the record is under, failed: %v", n.name, h.rkTerm, err)
 			return false
 		}
-		n.rootKey = h.rootKey
+		n.rootKey = h.rkRoot
 		return true
 	}
 	if err == nil {
-		h.viol("read-without-key", d, "ReloadRootKey on %s succeeded although it does not hold term %d of the root-key record", n.name, h.term)
+		h.viol("read-without-key", d, "ReloadRootKey on %s succeeded although it does not hold the key of term %d of the root-key record", n.name, h.rkTerm)
 	}
 	return false
 }
@@ -985,20 +1355,28 @@ func (h *c10H) walk(n *c10Node) bool {
 		var nt uint32
 		var err error
 		h.try("CheckUpgrade", func() { did, nt, err = n.b.CheckUpgrade(h.ctx) })
-		want := h.upgrades[n.maxTerm]
-		d := map[string]any{"node": n.name, "at_term": n.maxTerm, "upgrade_record_present": want, "did": did, "new_term": nt, "err": fmt.Sprint(err)}
+		up := h.upgrades[n.maxTerm]
+		d := map[string]any{"node": n.name, "at_term": n.maxTerm, "upgrade_record_present": up != nil, "did": did, "new_term": nt, "err": fmt.Sprint(err)}
+		if up != nil && !bytes.Equal(n.keys[n.maxTerm], up.encKey) {
+			// the record was written under another key of this term number (a rotation that was not acknowledged): unreadable here
+			if err == nil {
+				h.viol("read-without-key", d, "CheckUpgrade on %s read an upgrade record written under a key it does not hold", n.name)
+			}
+			return false
+		}
 		if err != nil {
 			h.viol("check-upgrade-fails", d, "CheckUpgrade on %s at term %d failed: %v", n.name, n.maxTerm, err)
 			return false
 		}
-		if did != want || (did && nt != n.maxTerm+1) {
-			h.viol("check-upgrade-result", d, "CheckUpgrade on %s at term %d returned (%v, %d); upgrade record core/upgrade/%d present: %v", n.name, n.maxTerm, did, nt, n.maxTerm, want)
+		if did != (up != nil) || (did && nt != n.maxTerm+1) {
+			h.viol("check-upgrade-result", d, "CheckUpgrade on %s at term %d returned (%v, %d); upgrade record core/upgrade/%d present: %v", n.name, n.maxTerm, did, nt, n.maxTerm, up != nil)
 			return false
 		}
 		if !did {
 			break
 		}
 		n.maxTerm++
+		n.keys[n.maxTerm] = up.key
 		installed++
 	}
 	if installed > 0 {
@@ -1007,7 +1385,7 @@ func (h *c10H) walk(n *c10Node) bool {
 			h.fUpgrade = true
 		}
 	}
-	h.checkUnsealed(n) // keyring equals the model (and through it the active's) up to the term reached
+	h.checkUnsealed(n, "after-upgrade-walk", false) // keyring equals the model (and through it the active's) up to the term reached
 	return true
 }
 
@@ -1023,14 +1401,16 @@ func (h *c10H) follow(n *c10Node) bool {
 		return false
 	}
 	// the statement: a standby following the upgrade path ends with the same keyring as the active node
-	if n != h.act && !h.act.sealed {
-		var a, s *Keyring
+	// (compared directly when the active itself is in step with the store, i.e. no unacknowledged operation left it behind)
+	a := h.act
+	if n != a && !a.sealed && a.maxTerm == h.durTerm && c10SameKeys(a.keys, h.durKeys) && bytes.Equal(a.rootKey, h.rootKey) {
+		var ak, sk *Keyring
 		var ea, es error
-		h.try("Keyring", func() { a, ea = h.act.b.Keyring(); s, es = n.b.Keyring() })
-		same := ea == nil && es == nil && a.ActiveTerm() == s.ActiveTerm() && len(a.keys) == len(s.keys) && bytes.Equal(a.RootKey(), s.RootKey())
+		h.try("Keyring", func() { ak, ea = a.b.Keyring(); sk, es = n.b.Keyring() })
+		same := ea == nil && es == nil && ak.ActiveTerm() == sk.ActiveTerm() && len(ak.keys) == len(sk.keys) && bytes.Equal(ak.RootKey(), sk.RootKey())
 		if same {
-			for t, k := range a.keys {
-				if sk := s.TermKey(t); sk == nil || !bytes.Equal(sk.Value, k.Value) {
+			for t, k := range ak.keys {
+				if o := sk.TermKey(t); o == nil || !bytes.Equal(o.Value, k.Value) {
 					same = false
 				}
 			}
@@ -1039,7 +1419,6 @@ func (h *c10H) follow(n *c10Node) bool {
 			h.viol("standby-keyring-differs", map[string]any{"err_active": fmt.Sprint(ea), "err_standby": fmt.Sprint(es)}, "after the upgrade walk, ReloadRootKey and ReloadKeyring the standby's keyring differs from the active's")
 		}
 	}
-	h.checkUnsealed(n)
 	return true
 }
 
@@ -1056,8 +1435,6 @@ func (h *c10H) opFailover() {
 	}
 	h.act, h.sby = h.sby, h.act
 	h.fFailover = true
-	// the new active must serve everything and write under the newest term
-	h.readBack(h.act, "after-failover")
 }
 
 // ------------------------------------------------------------------ the property
@@ -1069,12 +1446,12 @@ func c10Prop(rec *verifx.Recorder) func(rt *rapid.T) {
 		if err != nil {
 			rt.Fatalf("harness: inmem: %v", err)
 		}
-		h := &c10H{rt: rt, rec: rec, ctx: ctx, inm: inm,
-			entries: map[string][]byte{}, entryTerm: map[string]uint32{}, keys: map[uint32][]byte{}, upgrades: map[uint32]bool{}, ops: map[string]int64{}}
-		h.act = &c10Node{name: "node1", b: NewAESGCMBarrier(inm, nil).(*TransactionalAESGCMBarrier), sealed: true}
-		h.sby = &c10Node{name: "node2", b: NewAESGCMBarrier(inm, nil).(*TransactionalAESGCMBarrier), sealed: true}
+		faulty := &c10Faulty{TransactionalBackend: inm.(physical.TransactionalBackend)}
+		h := &c10H{rt: rt, rec: rec, ctx: ctx, inm: inm, faulty: faulty,
+			entries: map[string][]byte{}, entryTerm: map[string]uint32{}, entryKey: map[string][]byte{}, upgrades: map[uint32]*c10Upgrade{}, ops: map[string]int64{}}
+		h.act = &c10Node{name: "node1", b: NewAESGCMBarrier(faulty, nil).(*TransactionalAESGCMBarrier), sealed: true, keys: map[uint32][]byte{}}
+		h.sby = &c10Node{name: "node2", b: NewAESGCMBarrier(faulty, nil).(*TransactionalAESGCMBarrier), sealed: true, keys: map[uint32][]byte{}}
 		h.rootKey = h.drawRootKey("rootKey")
-		h.term = 1
 
 		// before initialisation nothing can be unsealed
 		var uerr error
@@ -1085,89 +1462,80 @@ func c10Prop(rec *verifx.Recorder) func(rt *rapid.T) {
 		if err := h.act.b.Initialize(ctx, c10Copy(h.rootKey), nil); err != nil {
 			rt.Fatalf("harness: initialize: %v", err)
 		}
+		h.syncDurable()
+		if h.durTerm != 1 || !h.rkOpen {
+			rt.Fatalf("harness: unexpected durable state after Initialize (term %d, root-key record opens: %v)", h.durTerm, h.rkOpen)
+		}
 		h.checkSealed(h.act)
 		h.checkSealed(h.sby)
 		for _, n := range []*c10Node{h.act, h.sby} {
-			var err error
-			h.try("Unseal", func() { err = n.b.Unseal(ctx, c10Copy(h.rootKey)) })
-			if err != nil {
-				h.viol("unseal-with-current-root-key-fails", map[string]any{"node": n.name, "err": fmt.Sprint(err)}, "first Unseal of %s failed: %v", n.name, err)
+			h.unseal(n, "right", h.rootKey)
+			if n.sealed {
+				rt.Fatalf("harness: first unseal failed")
 			}
-			n.sealed, n.rootKey, n.maxTerm = false, h.rootKey, 1
 		}
-		kr, err := h.act.b.Keyring()
-		if err != nil || kr.TermKey(1) == nil {
-			rt.Fatalf("harness: keyring after init: %v", err)
-		}
-		h.keys[1] = c10Copy(kr.TermKey(1).Value)
 		h.fSealCycle = false
 
 		count := func(name string, f func()) func(*rapid.T) {
 			return func(*rapid.T) {
-				h.ops[name]++
+				h.ops["op:"+name]++
 				f()
 			}
 		}
 		actions := map[string]func(*rapid.T){
-			"":                 func(*rapid.T) { h.invariant() },
+			"":                    func(*rapid.T) { h.invariant() },
 			"01-put":              count("put", h.opPut),
-			"24-put-again":        count("put", h.opPut),
-			"03-txn":              count("txn", h.opTxn),
-			"25-txn-again":        count("txn", h.opTxn),
-			"14-delete":           count("delete", h.opDelete),
-			"04-get":              count("get", func() { h.opGet(h.act, rapid.Bool().Draw(rt, "viaTxn")) }),
-			"08-get-standby":      count("get-standby", func() { h.opGet(h.sby, rapid.Bool().Draw(rt, "viaTxn")) }),
-			"15-list":             count("list", func() { h.opList(h.act) }),
-			"21-list-standby":     count("list", func() { h.opList(h.sby) }),
-			"16-crypt":            count("encrypt-decrypt", h.opCrypt),
 			"02-rotate":           count("rotate", func() { h.rotate(rapid.IntRange(0, 9).Draw(rt, "withUpgrade") < 7) }),
-			"26-rotate-again":     count("rotate", func() { h.rotate(rapid.IntRange(0, 9).Draw(rt, "withUpgrade") < 7) }),
-			"09-rotate-root-key":  count("rotate-root-key", h.rotateRoot),
+			"03-txn":              count("txn", h.opTxn),
+			"04-get":              count("get", func() { h.opGet(h.act, rapid.Bool().Draw(rt, "viaTxn")) }),
 			"05-seal-active":      count("seal-active", func() { h.opSeal(h.act) }),
-			"10-seal-standby":     count("seal-standby", func() { h.opSeal(h.sby) }),
 			"06-unseal-active":    count("unseal-active", func() { h.opUnseal(h.act) }),
+			"07-standby-follow":   count("standby-follow", func() { h.follow(h.sby) }),
+			"08-get-standby":      count("get-standby", func() { h.opGet(h.sby, rapid.Bool().Draw(rt, "viaTxn")) }),
+			"09-rotate-root-key":  count("rotate-root-key", h.rotateRoot),
+			"10-seal-standby":     count("seal-standby", func() { h.opSeal(h.sby) }),
 			"11-unseal-standby":   count("unseal-standby", func() { h.opUnseal(h.sby) }),
+			"12-failover":         count("failover", h.opFailover),
+			"13-standby-walk":     count("standby-walk", func() { h.walk(h.sby) }),
+			"14-delete":           count("delete", h.opDelete),
+			"15-list":             count("list", func() { h.opList(h.act) }),
+			"16-crypt":            count("encrypt-decrypt", h.opCrypt),
 			"17-reload-keyring":   count("reload-keyring", func() { h.reloadKeyring(h.act); h.reloadKeyring(h.sby) }),
 			"18-reload-root-key":  count("reload-root-key", func() { h.reloadRootKey(h.act); h.reloadRootKey(h.sby) }),
 			"19-create-upgrade": count("create-upgrade", func() {
-				if h.term < 2 {
+				if h.act.maxTerm < 2 {
 					h.rotate(true)
 					return
 				}
-				h.createUpgrade(uint32(rapid.IntRange(2, int(h.term)).Draw(rt, "upgradeTerm")))
+				h.createUpgrade(uint32(rapid.IntRange(2, int(h.act.maxTerm)).Draw(rt, "upgradeTerm")))
 			}),
 			"20-destroy-upgrade": count("destroy-upgrade", func() {
-				h.destroyUpgrade(uint32(rapid.IntRange(2, int(h.term)+1).Draw(rt, "upgradeTerm")))
+				h.destroyUpgrade(uint32(rapid.IntRange(2, int(h.durTerm)+1).Draw(rt, "upgradeTerm")))
 			}),
-			"13-standby-walk":   count("standby-walk", func() { h.walk(h.sby) }),
-			"22-active-walk":    count("active-walk", func() { h.walk(h.act) }),
-			"07-standby-follow": count("standby-follow", func() { h.follow(h.sby) }),
-			"12-failover":       count("failover", h.opFailover),
-			"23-autorotate-check": count("autorotate-check", func() {
-				n := h.act
-				var reason string
-				var err error
-				h.try("CheckBarrierAutoRotate", func() { reason, err = n.b.CheckBarrierAutoRotate(ctx) })
-				if err != nil || reason != "" {
-					h.viol("autorotate-check", map[string]any{"err": fmt.Sprint(err), "reason": reason}, "CheckBarrierAutoRotate returned (%q, %v) with the default rotation config", reason, err)
-				}
-			}),
+			"21-list-standby":     count("list", func() { h.opList(h.sby) }),
+			"22-active-walk":      count("active-walk", func() { h.walk(h.act) }),
+			"23-autorotate-check": count("autorotate-check", h.autoRotateCheck),
+			"24-put-again":        count("put", h.opPut),
+			"25-txn-again":        count("txn", h.opTxn),
+			"26-rotate-again":     count("rotate", func() { h.rotate(rapid.IntRange(0, 9).Draw(rt, "withUpgrade") < 7) }),
 		}
 		defer func() {
+			h.faulty.fault = nil
 			for k, v := range h.ops {
-				rec.Class("op:"+k, v)
+				rec.Class(k, v)
 			}
 			rec.Class("reads-of-entries-under-older-term", int64(h.oldTermReads))
 		}()
 		rt.Repeat(actions)
 
-		// end of the history: whoever is sealed is unsealed with the current root key and must serve everything
+		// end of the history: every instance is sealed and unsealed with the root key that opens the store and must
+		// then serve every acknowledged entry
 		for _, n := range []*c10Node{h.act, h.sby} {
-			if n.sealed {
-				h.unseal(n, "right", h.rootKey)
+			if !n.sealed {
+				h.seal(n)
 			}
+			h.unseal(n, "right", h.rootKey)
 		}
-		h.readBack(h.act, "final")
 
 		flag := func(b bool, s string) string {
 			if b {
@@ -1176,21 +1544,24 @@ func c10Prop(rec *verifx.Recorder) func(rt *rapid.T) {
 			return "-"
 		}
 		class := "rotate:" + flag(h.fRot, "y") + " rootkey:" + flag(h.fRootRot, "y") + " seal-cycle:" + flag(h.fSealCycle, "y") + " standby-upgrade:" + flag(h.fUpgrade, "y") + " failover:" + flag(h.fFailover, "y")
+		if h.faultsFired > 0 {
+			rec.Class("sequences-with-storage-fault", 1)
+		}
 		opsSorted := make([]string, 0, len(h.ops))
 		for k, v := range h.ops {
-			opsSorted = append(opsSorted, fmt.Sprintf("%s=%d", k, v))
+			opsSorted = append(opsSorted, fmt.Sprintf("%s=%d", strings.TrimPrefix(k, "op:"), v))
 		}
 		sort.Strings(opsSorted)
-		rec.Case(class, h.fNontrivial, verifx.Digest("c10", class, h.term, len(h.prevRoots), opsSorted, len(h.entries)), func() any {
-			return map[string]any{"class": class, "newest_term": h.term, "root_key_rotations": len(h.prevRoots), "entries": len(h.entries), "ops": strings.Join(opsSorted, " "),
-				"reads_of_entries_under_older_term": h.oldTermReads}
+		rec.Case(class, h.fNontrivial, verifx.Digest("c10", class, h.durTerm, len(h.prevRoots), opsSorted, len(h.entries)), func() any {
+			return map[string]any{"class": class, "durable_term": h.durTerm, "root_keys_seen": len(h.prevRoots) + 1, "entries": len(h.entries), "ops": strings.Join(opsSorted, " "),
+				"storage_faults_fired": h.faultsFired, "reads_of_entries_under_older_term": h.oldTermReads}
 		})
 	}
 }
 
 func TestVerif_C10_State(t *testing.T) {
 	rec := verifx.NewRecorder("C10", "barrier-state",
-		"rapid state machine over two AESGCMBarrier instances (active, standby) on one in-memory store: put/get/delete/list plain and transactional, Encrypt/Decrypt, Rotate (+CreateUpgrade), RotateRootKey (valid and bad sizes), Seal, Unseal with right/wrong/one-bit-off/truncated/extended/previous root key, ReloadKeyring, ReloadRootKey, Create/DestroyUpgrade, standby CheckUpgrade walk, performKeyUpgrades sequence, failover; non-trivial = >= 1 rotation, then a seal+unseal, keyring reload or standby upgrade on an instance, then that instance returns the exact value of an entry written under an older term")
+		"rapid state machine over two AESGCMBarrier instances (active, standby) on one in-memory store behind a pass-through that can fail one storage write (core/keyring, core/root-key, core/master delete, core/upgrade/*, data, any) of a Rotate/RotateRootKey/CreateUpgrade/DestroyUpgrade/Put/Delete/auto-rotate check: put/get/delete/list plain and transactional, Encrypt/Decrypt, Rotate (+CreateUpgrade), RotateRootKey (valid and bad sizes), Seal, Unseal with right/wrong/one-bit-off/truncated/extended/previous root key, ReloadKeyring, ReloadRootKey, standby CheckUpgrade walk, performKeyUpgrades sequence, failover; durable state is read from the store; every sequence ends with Seal+Unseal of both instances; non-trivial = >= 1 rotation, then a seal+unseal, keyring reload or standby upgrade on an instance, then that instance returns the exact value of an entry written under an older term")
 	defer rec.Flush()
 	rapid.Check(t, c10Prop(rec))
 }
